@@ -125,6 +125,8 @@ struct World {
     fault_budget: u32,
     rx_on_stack: bool,
     aborted: bool,
+    /// number of violations recorded when the run was aborted: what the wreckage reports afterwards is dropped
+    violations_at_abort: Option<usize>,
     focus: u8,
     retry_storm: bool,
     accepted_order: Vec<Item>,
@@ -238,9 +240,12 @@ impl verif::Hooks for InlineHooks {
             w.out.violate(
                 "C09",
                 "lock_held_at_control_point",
-                format!("channel state lock is held while user code (processor / watcher) runs; a sender at `{site}` would wait on the destination"),
+                format!("channel state lock is held while user code (processor, watcher or metrics sampler) runs; a sender at `{site}` would wait on the destination"),
             );
             w.log(format!("LOCK CONTENDED at {site}"));
+            if w.violations_at_abort.is_none() {
+                w.violations_at_abort = Some(w.out.violations.len());
+            }
         });
         panic::panic_any(Injected("abort_run"));
     }
@@ -856,9 +861,31 @@ fn start_op_kind(sh: &ShRef, a: usize, sender: &Arc<Sender<Chan>>, kind: usize) 
             None
         }
         _ => {
-            sample_metrics(sh, sender, "op");
+            if chance(sh, 1, 3) {
+                sample_metrics_reentrant(sh, sender);
+            } else {
+                sample_metrics(sh, sender, "op");
+            }
             None
         }
+    }
+}
+
+/// A sampler is user code (a metrics reporter may well emit into the very pipeline it samples):
+/// while it runs, other senders take their turns. Values are not compared in this mode.
+fn sample_metrics_reentrant(sh: &ShRef, sender: &Sender<Chan>) {
+    use emit::metric::Source as _;
+    w(sh, |w| {
+        w.out.probe("metrics_sampler_runs_sender_ops");
+        w.log("metrics sampled by a sampler that lets other senders run".into());
+    });
+    let r = panic::catch_unwind(AssertUnwindSafe(|| {
+        sender.metric_source().sample_metrics(emit::metric::sampler::from_fn(|_| {
+            interleave(sh, "in_sampler");
+        }))
+    }));
+    if r.is_err() {
+        op_panicked(sh, "sample_metrics");
     }
 }
 
@@ -939,10 +966,21 @@ fn interleave(sh: &ShRef, point: &'static str) {
                     "in_proc_poll" => "sender_op_while_processor_pending",
                     "in_wait" => "sender_op_during_receiver_wait",
                     "in_watcher" => "sender_op_inside_watcher_callback",
+                    "in_sampler" => "sender_op_inside_metrics_sampler",
                     _ => "sender_op_nested",
                 });
             });
-            actor_step(sh, a);
+            // an abort raised by the nested step (a held lock was found) must not unwind through the frames of
+            // the code under test that called this seam: they may hold the very guard, and a poisoned mutex makes
+            // `Receiver::drop` panic during the unwinding of `exec`, which aborts the process
+            let r = panic::catch_unwind(AssertUnwindSafe(|| actor_step(sh, a)));
+            if let Err(e) = r {
+                if w(sh, |w| w.aborted) {
+                    let _ = crate::core::take_last_panic();
+                    return;
+                }
+                panic::resume_unwind(e);
+            }
         }
     }
 }
@@ -1027,6 +1065,9 @@ fn attempt_start(sh: &ShRef, arg: &Chan) -> (u64, u32) {
                         format!("batch #{} attempted {} times", cur.no, cur.attempts),
                     );
                     w.aborted = true;
+                    if w.violations_at_abort.is_none() {
+                        w.violations_at_abort = Some(w.out.violations.len());
+                    }
                 }
                 cur.last_retry_pending = false;
                 cur.attempt_open = true;
@@ -1285,6 +1326,7 @@ fn new_world(cap: usize, focus: u8, fault_budget: u32, retry_storm: bool) -> Wor
                 fault_budget,
                 rx_on_stack: false,
                 aborted: false,
+                violations_at_abort: None,
                 focus,
                 retry_storm,
                 accepted_order: Vec::new(),
@@ -1572,14 +1614,21 @@ impl Engine for ChanInline {
             }
         }
         // make sure nothing of ours outlives the run
+        // (after an aborted run the channel's mutex may be poisoned - the abort unwound through a frame that held
+        // it - and the halves' destructors then panic: contain each one)
         {
-            let mut actors = sh.actors.lock().unwrap();
-            for a in actors.iter_mut() {
-                a.cur = None;
+            let curs: Vec<_> = {
+                let mut actors = sh.actors.lock().unwrap();
+                actors.iter_mut().map(|a| a.cur.take()).collect()
+            };
+            for c in curs {
+                let _ = panic::catch_unwind(AssertUnwindSafe(move || drop(c)));
             }
         }
-        let _ = sh.sender.lock().unwrap().take();
-        drop(rx);
+        let s = sh.sender.lock().unwrap().take();
+        let _ = panic::catch_unwind(AssertUnwindSafe(move || drop(s)));
+        let _ = panic::catch_unwind(AssertUnwindSafe(move || drop(rx)));
+        let _ = crate::core::take_last_panic();
         verif::install(prev_hooks);
 
         // give the choice stream back
@@ -1588,6 +1637,9 @@ impl Engine for ChanInline {
         let mut world = sh.world.lock().unwrap_or_else(|e| e.into_inner());
         let wd = &mut *world;
         posthoc_checks(wd);
+        if let Some(n) = wd.violations_at_abort {
+            wd.out.violations.truncate(n);
+        }
         let mut out = std::mem::take(&mut wd.out);
         out.steps = steps;
         out.sim_time_ns = wd.now.as_nanos();
